@@ -1,26 +1,30 @@
 (* SrvRestartSimCb: the restart simulation (C08.8) for servers with AllowPush whose earlier incarnations DID register
-   Callbacks.
+   Callbacks (SrvRestartSim covers the histories without callback records).
 
-   [embk dk ocb x]: the state x of a server with, in front of its callback table, the callback records [ocb] of
-   earlier incarnations, none of them registered any more ("completed": its id is not a key of [calls]; its watcher is
-   done, or blocked for ever, or parked with nothing left to do: releasing it only marks it done), the id counter
-   advanced by dk, every callback index (calls, LRelCbWatch) shifted by |ocb| and every callback id RENAMED by
-   [ren dk]: the numeral of k >= 1 becomes the numeral of dk + k; every other byte string is left alone.  The renaming
-   applies to the ids in the callback table and in [calls], to the ids of the reply members of fed records (in the
-   channel, in the reader's hands and in LFeed labels) and to the ids of the OSendReq observations.
+   [embk dk ocb ocl x]: the state x of a server with, in front of its callback table, the callback records [ocb] of
+   earlier incarnations and, behind its registrations, the registrations [ocl] of those old callbacks that are still
+   pending (the Callback has not returned: Stop cancelled its context and its watcher has not run yet); the id counter
+   is advanced by dk, every callback index (calls, LRelCbWatch) is shifted by |ocb| and every callback id is RENAMED
+   by [ren dk]: the numeral of k >= 1 becomes the numeral of dk + k; every other byte string is left alone.  The
+   renaming applies to the ids in the callback table and in [calls], to the ids of the members of fed records that are
+   not requests (in the channel, in the reader's hands and in LFeed labels) and to the ids of the OSendReq
+   observations.  [old_ok]: the old records bear old ids (numerals of 1..dk), the pending registrations are keyed by
+   old ids and their records are cancelled with a watcher that is not blocked.
    [embc ...] = [emb] (tasks, units, counters: SrvRestartSim) after [embk].
 
-   Theorem [embc_step]: [step] commutes with the embedding for EVERY label, up to this renaming, under three
-   environment hypotheses stated as boolean predicates:
-     (i)   c_push x = true and 1 <= call_id x (invariants of the run of a server with AllowPush);
-     (ii)  [shaped]: a fed member that is neither a request/notification nor reply-shaped (no method, a result or an
-           error) does not carry a positive numeral as its id (such a member is answered under its own id when that id
-           is not registered, so its id cannot be renamed);
-     (iii) [ops_fresh]: LCbCtxEnd n is not used with the operation number of an old record.
-   Labels that address an old task or unit are disabled (SrvRestartSim); LRelCbWatch on an old record is a SILENT step
-   (no observation, only the old record changes) or disabled.  Fed records in the image of the renaming are exactly
-   those without the id of an old callback ([no_old_ids]); a reply bearing an old id is dropped as any unknown id is
-   ([restart_old_reply_unsolicited]). *)
+   Theorem [embc_step]: [step] commutes with the embedding for EVERY label, up to this renaming, under
+     (i)   [pinv]: c_push x = true, 1 <= call_id x, the fed records held by x are shaped (an invariant: [step_pinv]);
+     (ii)  [shaped_feed]: a fed member that is neither a request/notification nor reply-shaped (no method, a result or
+           an error) does not carry a positive numeral as its id (such a member is answered under its own id when that
+           id is not registered: [restart_unshaped_refuted]);
+     (iii) [lab_ok]: LCbCtxEnd n is not used with the operation number of an old record ([restart_ops_reuse_refuted]).
+   Labels that address an old task or unit are disabled (SrvRestartSim); LRelCbWatch on an old record is disabled or
+   changes the old records only ([old_release], [embc_old_watch]): silent, or the return of the cancellation to the
+   caller of an old Callback still registered.  Fed records in the image of the renaming are exactly those without
+   the id of an old callback ([no_old_feed]); a reply bearing the id of an old callback that has returned is dropped
+   as any unknown id is ([embc_old_reply_late]).
+   Runs: [embc_run_fwd], [embc_run_bwd]; the restarted server: [reach_old_ok], [restart_is_embc],
+   [restart_simulation_cb], [restart_trace_properties_cb]. *)
 From Coq Require Import List NArith ZArith Bool Arith Lia.
 From RecordUpdate Require Import RecordUpdate.
 From JV Require Import Bytes Msg SrvModel SrvLemmas SrvBasics SrvC01 SrvC07 SrvC09 SrvC10 SrvC08 SrvC08b SrvC08c SrvC08q.
@@ -1526,3 +1530,171 @@ Example restart_unshaped_refuted :
   (exists x, run (started s) (map (rsc_label s 2) tr) =
      Some (x, [[]; []; []; []; [OSend true false [{| r_id := [51%N]; r_body := BErr InvalidRequest s_empty_method |}]]])).
 Proof. cbv zeta. split; [vm_compute; reflexivity|]. split; eexists; vm_compute; reflexivity. Qed.
+
+(** * the definitions, spelled out *)
+Lemma ren_spec dk :
+  (forall j, ren dk (dec_of_nat (S j)) = dec_of_nat (dk + S j)) /\
+  (forall b, (forall j, b <> dec_of_nat (S j)) -> ren dk b = b) /\
+  (forall a b, ren dk a = ren dk b -> a = b).
+Proof.
+  split; [apply ren_dec|]. split; [|apply ren_inj].
+  intros b H. unfold ren. destruct (idnum b) as [[|j]|] eqn:E; auto. exfalso. apply (H j). apply idnum_some. exact E.
+Qed.
+
+Lemma is_posnum_spec b : is_posnum b = true <-> exists j, b = dec_of_nat (S j).
+Proof.
+  unfold is_posnum. split.
+  - destruct (idnum b) as [[|j]|] eqn:E; try discriminate. intros _. exists j. apply idnum_some. exact E.
+  - intros (j & ->). rewrite idnum_dec. reflexivity.
+Qed.
+
+Lemma old_id_spec dk b : old_id dk b = true <-> exists j, 1 <= j <= dk /\ b = dec_of_nat j.
+Proof.
+  unfold old_id. split.
+  - destruct (idnum b) as [[|j]|] eqn:E; try discriminate. intros H. apply Nat.leb_le in H.
+    exists (S j). split; [lia|]. apply idnum_some. exact E.
+  - intros (j & L & ->). rewrite idnum_dec. destruct j as [|j]; [lia|]. apply Nat.leb_le. lia.
+Qed.
+
+Lemma shaped_msg_spec m : shaped_msg m = true <->
+  is_req_or_notif m = true \/ (j_method m = [] /\ has_reply_fields m = true) \/ (forall j, j_id m <> dec_of_nat (S j)).
+Proof.
+  unfold shaped_msg, reply_shaped. rewrite !orb_true_iff, andb_true_iff, negb_true_iff, is_nil_true. split.
+  - intros [[H|H]|H]; auto. right. right. intros j E.
+    assert (P : is_posnum (j_id m) = true) by (apply is_posnum_spec; eauto). congruence.
+  - intros [H|[H|H]]; auto. right. destruct (is_posnum (j_id m)) eqn:P; auto.
+    apply is_posnum_spec in P as (j & E). destruct (H j E).
+Qed.
+
+Lemma no_old_msg_spec dk m : no_old_msg dk m = true <->
+  is_req_or_notif m = true \/ (forall j, 1 <= j <= dk -> j_id m <> dec_of_nat j).
+Proof.
+  unfold no_old_msg. rewrite orb_true_iff, negb_true_iff. split.
+  - intros [H|H]; auto. right. intros j L E.
+    assert (O : old_id dk (j_id m) = true) by (apply old_id_spec; eauto). congruence.
+  - intros [H|H]; auto. right. destruct (old_id dk (j_id m)) eqn:O; auto.
+    apply old_id_spec in O as (j & L & E). destruct (H j L E).
+Qed.
+
+Lemma feed_preds_spec dk f :
+  shaped_feed f = match f with FMsg (InMsgs _ ms) | FMsgEOF (InMsgs _ ms) => forallb shaped_msg ms | _ => true end /\
+  no_old_feed dk f = match f with FMsg (InMsgs _ ms) | FMsgEOF (InMsgs _ ms) => forallb (no_old_msg dk) ms | _ => true end /\
+  ren_feed dk f = match f with
+                  | FMsg (InMsgs b ms) => FMsg (InMsgs b (map (ren_msg dk) ms))
+                  | FMsgEOF (InMsgs b ms) => FMsgEOF (InMsgs b (map (ren_msg dk) ms))
+                  | x => x
+                  end /\
+  (forall m, ren_msg dk m = if is_req_or_notif m then m
+                            else Build_jmsg (ren dk (j_id m)) (j_method m) (j_params m) (j_error m) (j_result m) (j_err m)).
+Proof. repeat split; destruct f as [[|b ms]|[|b ms]|c]; reflexivity. Qed.
+
+Lemma pinv_spec x : pinv x <->
+  c_push x = true /\ 1 <= call_id x /\ (forall f, In f (ch_in x) -> shaped_feed f = true) /\
+  (forall f, rd x = RHold f -> shaped_feed f = true).
+Proof.
+  unfold pinv, fed_ok, rd_shaped. split.
+  - intros (A & B & C & D). repeat split; auto. intros f E. rewrite E in D. exact D.
+  - intros (A & B & C & D). repeat split; auto. destruct (rd x) as [| |f|]; auto.
+Qed.
+
+Lemma rsc_emb_cb_spec s ocb ocl x :
+  let y := embk (call_id s - 1) ocb ocl x in
+  rsc_emb s ocb ocl x = rs_emb s y /\
+  calls y = map (fun p => (ren (call_id s - 1) (fst p), length ocb + snd p)) (calls x) ++ ocl /\
+  call_id y = call_id s - 1 + call_id x /\
+  cbs y = ocb ++ map (fun c0 => mkCb (cb_op c0) (ren (call_id s - 1) (cb_id c0)) (cb_slot c0) (cb_ctx c0) (cb_cancelled c0)
+                                     (cb_watch c0) (cb_ret c0)) (cbs x) /\
+  ch_in y = map (ren_feed (call_id s - 1)) (ch_in x) /\
+  rd y = match rd x with RHold f => RHold (ren_feed (call_id s - 1) f) | r => r end /\
+  (c_K y, c_push y, c_builtin y, c_methods y, c_unblock y) = (c_K x, c_push x, c_builtin x, c_methods x, c_unblock x) /\
+  (send_fail y, running y, stop_err y, work_closed y, closes y, starts y) =
+    (send_fail x, running x, stop_err x, work_closed x, closes x, starts x) /\
+  (dp y, inq y, units y, tasks y, nbar y, sem_free y, sem_wait y, used y) =
+    (dp x, inq x, units x, tasks x, nbar x, sem_free x, sem_wait x, used x) /\
+  (wg y, ops y, waits y, ended y, crash y) = (wg x, ops x, waits x, ended x, crash x).
+Proof. cbv zeta. repeat split. cbn. destruct (rd x); reflexivity. Qed.
+
+Lemma rsc_label_spec s nc l : rsc_label s nc l =
+  match l with
+  | LFeed f => LFeed (ren_feed (call_id s - 1) f)
+  | LRelCbWatch i => LRelCbWatch (nc + i)
+  | LRelAcquire k => LRelAcquire (length (tasks s) + k)
+  | LRelHandled k => LRelHandled (length (tasks s) + k)
+  | LRelDeliver u => LRelDeliver (length (units s) + u)
+  | x => x
+  end.
+Proof. destruct l; reflexivity. Qed.
+
+Lemma lab_ok_spec dk oops l :
+  lab_ok oops l = match l with
+                  | LFeed f => shaped_feed f
+                  | LCbCtxEnd n _ => forallb (fun o => negb (o =? n)) oops
+                  | _ => true
+                  end /\
+  lab_ok' dk oops l = (lab_ok oops l && match l with LFeed f => no_old_feed dk f | _ => true end) /\
+  (forall nc, old_watch nc l = match l with LRelCbWatch i => i <? nc | _ => false end).
+Proof. repeat split. Qed.
+
+Lemma strip_spec ot ou dk nc :
+  strip ot ou dk nc [] = [] /\
+  (forall l' r, strip ot ou dk nc (l' :: r) =
+     if old_watch nc l' then strip ot ou dk nc r
+     else match l' with
+          | LFeed f => LFeed (map_feed (unren dk) f)
+          | LRelCbWatch i => LRelCbWatch (i - nc)
+          | LRelAcquire k => LRelAcquire (k - length ot)
+          | LRelHandled k => LRelHandled (k - length ot)
+          | LRelDeliver u => LRelDeliver (u - length ou)
+          | x => x
+          end :: strip ot ou dk nc r) /\
+  (forall b, unren dk b = match idnum b with Some j => if dk <? j then dec_of_nat (j - dk) else b | None => b end) /\
+  (forall b, old_id dk b = false -> ren dk (unren dk b) = b) /\ (forall b, unren dk (ren dk b) = b).
+Proof.
+  split; [reflexivity|]. split; [|split; [reflexivity|split; [apply ren_unren|apply unren_ren]]].
+  intros l' r. cbn [strip]. destruct (old_watch nc l'); [reflexivity|]. destruct l'; reflexivity.
+Qed.
+
+Lemma windows_spec nc :
+  (forall l' r o q, fresh_windows nc (l' :: r) (o :: q) =
+     if old_watch nc l' then fresh_windows nc r q else o :: fresh_windows nc r q) /\
+  (forall l' r o q, old_windows nc (l' :: r) (o :: q) =
+     if old_watch nc l' then o :: old_windows nc r q else old_windows nc r q) /\
+  (forall oss, fresh_windows nc [] oss = [] /\ old_windows nc [] oss = []) /\
+  (forall tr', fresh_windows nc tr' [] = [] /\ old_windows nc tr' [] = []) /\
+  (forall oops ocl w, old_window oops ocl w <-> w = [] \/ (ocl <> [] /\ exists n r, In n oops /\ w = [ORet n r])).
+Proof.
+  repeat split; try reflexivity; try (destruct tr'; reflexivity); auto.
+Qed.
+
+Lemma old_ok_spec dk ocb ocl : old_ok dk ocb ocl <->
+  (forall c, In c ocb -> old_id dk (cb_id c) = true) /\
+  (forall p, In p ocl -> old_id dk (fst p) = true) /\
+  (forall c, In c ocb -> assoc (cb_id c) ocl <> None -> cb_cancelled c = true /\ cb_watch c <> WBlocked).
+Proof. reflexivity. Qed.
+
+Lemma old_release_spec i ocb ocl : old_release i ocb ocl =
+  match nth_error ocb i with
+  | Some c =>
+      match cb_watch c with
+      | WParked =>
+          let done := upd_nth i (fun c0 => c0 <| cb_watch := WDone |>) ocb in
+          let '(code, msg) := match cb_ctx c with
+                              | Some WDeadline => (DeadlineExceeded, s_ctx_deadline)
+                              | _ => (Cancelled, s_ctx_canceled) end in
+          match assoc (cb_id c) ocl, cb_slot c with
+          | Some j, None =>
+              if j =? i then
+                Some (upd_nth i (fun c0 => wake_watch (c0 <| cb_slot := Some (CErr code msg) |>)) done,
+                      assoc_del (cb_id c) ocl,
+                      if cb_ret c then [] else [ORet (cb_op c) (ctx_res code msg)])
+              else Some (done, ocl, [])
+          | _, _ => Some (done, ocl, [])
+          end
+      | _ => None
+      end
+  | None => None
+  end.
+Proof.
+  unfold old_release, cancel_code, mark_done. destruct (nth_error ocb i) as [c|]; [|reflexivity].
+  destruct (cb_watch c); try reflexivity. cbv zeta. destruct (cb_ctx c) as [[|]|]; reflexivity.
+Qed.
